@@ -141,7 +141,7 @@ def names_back_map(names):
 def run_case(case):
     r = R()
     req = case["request"]
-    if req not in REQUESTS:
+    if req not in REQUESTS and not case.get("include_known"):
         raise BadCase("unknown request")
     if req not in _BASE:
         base, err = run_worker({"request": req, "history": [],
@@ -175,6 +175,8 @@ def run_case(case):
                 # the lowest-name text depends on the generic names that the
                 # preceding calls consumed
                 sub = "differs/text_after_history_F27"
+            if case.get("include_known") and req == "re_resid_j3":
+                sub = "differs/explicit_name_equals_used_generic_name_F28"
             r.fail(sub,
                    f"{r.sample}:\n  baseline {str(base.get(key))[:400]}\n  "
                    f"got      {str(got.get(key))[:400]}")
